@@ -600,6 +600,7 @@ def check_function(eng, contract, result):
                 nm, g = item[0], item[1]
                 info = {'fn': qn, 'outcome': outcome, 'requires': [g for (_, g) in pres], 'site': site_sig(d, site)}
                 if len(item) > 2 and item[2] is not None: info['via'] = item[2]
+                if len(item) > 3 and item[3]: info['cuts'] = list(item[3])
                 eng.obligations.append(Obligation('ensures:' + nm, s.pc, g, 'ensures', qn, info=info))
             if contract.assigns is not None:
                 for key, arr in s.heap.items():
